@@ -9,7 +9,7 @@ CONSTANTS Mode, MaxOps
 VARIABLES built, evs, step, hist
 Z == [a |-> "", c |-> 0, kind |-> "", mid |-> 0, fs |-> 0, pts |-> <<>>, ipts |-> <<>>, rows |-> <<>>, res |-> "", g |-> <<2, -1>>,
       model |-> <<2, -1, 3>>, static |-> FALSE, rev |-> FALSE, order |-> "xt", it |-> 0, fids |-> <<>>, tgt |-> 0, norm |-> 2,
-      root |-> 1, full |-> FALSE, k |-> 0, gt |-> FALSE]
+      root |-> 1, full |-> FALSE, k |-> 0, gt |-> FALSE, bs |-> 0]
 Ev(cid, it) == [Z EXCEPT !.a = "ev", !.c = cid, !.it = it]
 Fix(mid, k) == [Z EXCEPT !.a = "fix", !.mid = mid, !.k = k]
 Pidon(cid, mid, fs, pts, res, static, rev) ==
@@ -23,6 +23,10 @@ Integro(cid, n, ipts, res, static, order, rev) ==
               !.order = order, !.rev = rev]
 Ritz(cid, n, static, order) == [Z EXCEPT !.a = "con", !.c = cid, !.kind = "ritz", !.rows = SubSeq(RowsA, 1, n), !.static = static, !.order = order]
 Param(cid, kap) == [Z EXCEPT !.a = "con", !.c = cid, !.kind = "param", !.k = kap]
+HpmS(cid, n, kap, static, order, rev) == [Z EXCEPT !.a = "con", !.c = cid, !.kind = "hpms", !.rows = SubSeq(RowsA, 1, n), !.k = kap, !.static = static,
+                                                   !.order = order, !.rev = rev]
+HpmD(cid, n, kap, bs, norm, root, full, order) == [Z EXCEPT !.a = "con", !.c = cid, !.kind = "hpmd", !.rows = SubSeq(RowsA, 1, n), !.k = kap, !.bs = bs,
+                                                            !.norm = norm, !.root = root, !.full = full, !.order = order]
 Sets1 == << <<<<1, 2>>, <<3, 1>>>>, <<<<4, 5>>>>, <<<<5, 3, 2>>, <<1, 4, 2>>>> >>
 Three(c) == <<c, Ev(1, 0), Ev(1, 0), Ev(1, 1)>>
 Single ==
@@ -35,6 +39,9 @@ Single ==
         n \in {1, 3}, ipts \in {<<0, 1>>, <<2>>, <<0, 1, 4>>}, res \in {"int", "intvec", "intx", "intdx", "intdt"}, st \in BOOLEAN, ord \in {"xt", "tx"}, rev \in BOOLEAN}
     \cup {[fsets |-> Sets1, ops |-> Three(Ritz(1, n, st, ord))] : n \in {1, 3}, st \in BOOLEAN, ord \in {"xt", "tx"}}
     \cup {[fsets |-> Sets1, ops |-> Three(Param(1, kap))] : kap \in {1, 5}}
+    \cup {[fsets |-> Sets1, ops |-> Three(HpmS(1, n, kap, st, ord, rev))] : n \in {1, 3}, kap \in {2, -1}, st \in BOOLEAN, ord \in {"xt", "tx"}, rev \in BOOLEAN}
+    \cup {[fsets |-> Sets1, ops |-> Three(HpmD(1, n, kap, bs, norm, root, full, ord))] :
+             n \in {1, 3}, kap \in {2}, bs \in {1, 2, 3}, norm \in 0..2, root \in 1..2, full \in BOOLEAN, ord \in {"xt", "tx"}}
     \* the data function g given as a TABLE (one tensor object with the values at the rows) shared by an integro condition and a
     \* Deep-Ritz condition / a second integro condition, all on static samplers over the same rows; both construction orders
     \cup {[fsets |-> Sets1, ops |-> IF fst THEN <<a, b, Ev(1, 0), Ev(2, 0), Ev(1, 0)>> ELSE <<b, a, Ev(2, 0), Ev(1, 0), Ev(2, 0)>>] :
